@@ -1122,6 +1122,9 @@ void Preprocessor::dump(std::ostream &out) const
 std::size_t Preprocessor::calculateHash(const std::string &toolinfo) const
 {
     std::string hashData = toolinfo;
+    // the language the file is analysed as (--language, file extension)
+    hashData += std::to_string(static_cast<std::uint8_t>(mLang));
+    hashData += ';';
     for (const simplecpp::Token *tok = mTokens.cfront(); tok; tok = tok->next) {
         if (!tok->comment) {
             // length-prefixed spelling and the full line/column so that the data determines the token
